@@ -26,6 +26,31 @@ impl StepOracle for C09Oracle {
             ),
             _ => return Verdict::Pass,
         };
+        // "The pool never credits native value that was not attached": whatever the message lists, the LP
+        // minted by a successful provision into a live pool is bounded by what the ATTACHED coin of each native
+        // side justifies, m <= attached_i * S / r_i (the unchanged tree mints min_i(d_i*S/r_i) with d_i attached).
+        if let Intent::Provide { pair, .. } = cx.intent {
+            if cx.rec.outcome.is_ok() {
+                let pr = &w.pairs[*pair];
+                let (r0, r1, sup) = pool_in(w, &cx.rec.before, *pair);
+                let (_, _, sup_after) = pool_in(w, &cx.rec.after, *pair);
+                let minted = sup_after.saturating_sub(sup);
+                if sup > 0 {
+                    for (i, r) in [(0usize, r0), (1usize, r1)] {
+                        if let AssetInfo::NativeToken { denom } = &pr.infos[i] {
+                            let att = cx.rec.step.funds.iter().filter(|c| c.denom == *denom).map(|c| c.amount.u128()).sum::<u128>();
+                            if r > 0 && crate::nat::n(minted).mul(&crate::nat::n(r)) > crate::nat::n(att).mul(&crate::nat::n(sup)) {
+                                return Verdict::Fail(format!(
+                                    "step {}: provision minted {} LP (supply {}, reserve of {} = {}) although only {} of {} was attached: native value credited that was not attached",
+                                    cx.index, minted, sup, denom, r, att, denom
+                                ));
+                            }
+                            classes.push("p:native-credit-bounded-by-attached");
+                        }
+                    }
+                }
+            }
+        }
         if named.is_empty() {
             return Verdict::Pass;
         }
@@ -108,5 +133,5 @@ pub fn suites() -> Vec<Suite> {
     }]
 }
 
-pub const RULE: &str = "case = world + history (profile 'funds': 11/16 of provide/swap calls have their attached funds played with: less, more, a named coin absent, an extra unrelated coin, the pair's other denom attached, random amount; coin sets are always valid: distinct denoms, positive amounts); judged per call that names a native asset: success => attached == declared for every named native asset (absent counts as zero) and the pair's balance of that denom rose by exactly the declared amount; failure => chain state byte-identical; non-trivial = history with a declared != attached case or an accepted call with a positive declared amount; distinct = hash of the tape. The converse (equal funds => success) is not claimed and not asserted";
+pub const RULE: &str = "case = world + history (profile 'funds': 11/16 of provide/swap calls have their attached funds played with: less, more, a named coin absent, an extra unrelated coin, the pair's other denom attached, random amount; coin sets are always valid: distinct denoms, positive amounts); judged per call that names a native asset: success => attached == declared for every named native asset (absent counts as zero) and the pair's balance of that denom rose by exactly the declared amount; failure => chain state byte-identical; non-trivial = history with a declared != attached case or an accepted call with a positive declared amount; distinct = hash of the tape. The converse (equal funds => success) is not claimed and not asserted Every successful provision into a live pool - whatever its message lists - must in addition mint no more LP than the ATTACHED coin of each native side justifies (m*r_i <= attached_i*S): the pool never credits native value that was not attached.";
 pub const ASSUMPTIONS: &[&str] = &["cw-multi-test chain model; only valid coin sets can be attached (as on a chain)"];
